@@ -134,6 +134,7 @@ type memStream struct {
 	gotFIN       bool          // a FIN packet was delivered to this end
 	onSend       func(n int)   // hook called before the n-th SendMsg
 	reqs         []uint32      // ids of the REQ packets sent through this end
+	latency      bool          // SendMsg returns only after everything else had a chance to react to the packet
 }
 
 func newStreamPair(ctx context.Context, capacity int) (*memStream, *memStream) {
@@ -171,6 +172,9 @@ func (s *memStream) SendMsg(m interface{}) error {
 	}
 	select {
 	case s.out <- copyPacket(m.(*types.Packet)):
+		if s.latency {
+			v.Yield() // a transport whose SendMsg returns some time after the peer has seen the packet
+		}
 		return nil
 	case <-s.brk:
 		return errBroken
